@@ -183,6 +183,13 @@ def _literal_term(node, tree=None):
         return ('const', node.value)
     if tree is not None and isinstance(node, ast.Name) and node.id in _module_callables(tree):
         return ('name', node.id)
+    if isinstance(node, ast.Name) and node.id in ('int', 'float', 'str', 'bool') and (tree is None or node.id not in _module_callables(tree)):
+        return ('name', node.id)        # the builtin types, as values (type=int in an option table)
+    if isinstance(node, ast.Call) and isinstance(node.func, ast.Name) and node.func.id == 'dict' and not node.args \
+            and node.keywords and all(k.arg is not None for k in node.keywords):
+        vs = [_literal_term(k.value, tree) for k in node.keywords]
+        if all(v is not None for v in vs):
+            return ('dict', tuple((('const', k.arg), v) for k, v in zip(node.keywords, vs)))     # dict(a=1) is {'a': 1}
     if tree is not None and isinstance(node, ast.Call) and isinstance(node.func, ast.Name) and not any(isinstance(a, ast.Starred) for a in node.args) \
             and all(k.arg is not None for k in node.keywords):
         cls_ = [s_ for s_ in tree.body if isinstance(s_, ast.ClassDef) and s_.name == node.func.id]
@@ -216,6 +223,12 @@ def _literal_term(node, tree=None):
     if isinstance(node, ast.Attribute) and isinstance(node.value, ast.Name) and node.value.id in ('math', 'np', 'numpy') \
             and node.attr in ('inf', 'pi', 'e', 'nan'):
         return ('attr', ('name', node.value.id), node.attr)
+    if isinstance(node, ast.Call) and isinstance(node.func, ast.Attribute) and isinstance(node.func.value, ast.Name) \
+            and (node.func.value.id, node.func.attr) == ('str', 'maketrans') and len(node.args) == 1 and not node.keywords \
+            and isinstance(node.args[0], ast.Dict):
+        inner = _literal_term(node.args[0], tree)      # a translation table is a value
+        if inner is not None:
+            return ('call', ('attr', ('name', 'str'), 'maketrans'), (inner,), ())
     if isinstance(node, ast.Call) and isinstance(node.func, ast.Attribute) and isinstance(node.func.value, ast.Name) \
             and (node.func.value.id, node.func.attr) == ('re', 'compile') and node.args and not node.keywords \
             and all(isinstance(a, ast.Constant) for a in node.args):
@@ -266,7 +279,7 @@ def _branches_without_exit(loop):
     return False
 
 
-def _literal_seq(t, limit=16):
+def _literal_seq(t, limit=40):
     """items of a literal tuple / list term whose members are constants (or tuples of constants), else None"""
     def lit(x):
         return x[0] == 'const' or (x[0] in ('tuple', 'list') and all(lit(y) for y in x[1])) or \
@@ -547,7 +560,7 @@ def percent_format(fmt, arg):
 
 class SymExec(object):
     def __init__(self, fn, unroll=1, on_call=None, on_stmt=None, init_env=None, implicit_except=True,
-                 watch_attrs=None, inline=True, no_inline=(), fold_loops=True):
+                 watch_attrs=None, inline=True, no_inline=(), fold_loops=True, inline_also=()):
         self.fn = fn
         self.unroll = unroll
         self.on_call = on_call
@@ -568,7 +581,7 @@ class SymExec(object):
         # interprocedural context: private helpers of the same module / class / enclosing function are inlined
         self.inline = inline
         self.fold_loops = fold_loops
-        self.no_inline = set(no_inline) | VOCABULARY
+        self.no_inline = (set(no_inline) | VOCABULARY) - set(inline_also)     # inline_also: rule-level names this analysis wants opened
         self._stack = [fn]
         self._consts_by_mod = {}
         self._fn_by_id = None
@@ -1132,7 +1145,7 @@ class SymExec(object):
             return None
         return env
 
-    def iter_items(self, t, st, limit=16):
+    def iter_items(self, t, st, limit=40):
         """the items an iteration over term `t` visits, when that is known: displays, constant strings, range(k), zip /
         reversed / enumerate of known sequences, a list created empty here whose appends were all seen.  Else None."""
         def go(t):
